@@ -424,6 +424,7 @@ pub fn synthetic_project(seed: u64) -> Project {
     let fname = |k: usize| if k == 0 { "/p/entry.ts".to_string() } else { format!("/p/m{}.ts", k) };
     let poison = rng.chance(1, 3);
     let mut bodies: Vec<String> = vec![];
+    let mut object_fields: Vec<usize> = vec![0; n_types]; // number of f<k> fields when Ti is an object
     let prim = ["string", "number", "boolean", "null", "\"lit\"", "42", "true", "string[]", "bigint"];
     let mut enum_decl = String::new();
     let use_enum = rng.chance(1, 4);
@@ -459,14 +460,18 @@ pub fn synthetic_project(seed: u64) -> Project {
                 let doc = if rng.chance(1, 3) { format!("/** doc {} of field {} of T{} */\n  ", rng.below(5), f, i) } else { String::new() };
                 fields.push(format!("  {}f{}{}: {};", doc, f, opt, t));
             }
+            object_fields[i] = nf;
             format!("{{\n{}\n}}", fields.join("\n"))
         } else if kind < 8 {
             // discriminated union of inline objects and / or named members
             let nm = rng.range(2, 3);
             let mut members = vec![];
+            // sometimes two properties qualify as discriminator (kind and tag)
+            let two = rng.chance(1, 3);
             for m in 0..nm {
                 let extra = if rng.chance(1, 2) { format!("; v: {}", r(&mut rng)) } else { format!("; n{}: number", m) };
-                members.push(format!("{{ kind: \"k{}\"{} }}", m, extra));
+                let tag = if two { format!("; tag: \"t{}\"", m) } else { String::new() };
+                members.push(format!("{{ kind: \"k{}\"{}{} }}", m, tag, extra));
             }
             members.join(" | ")
         } else if kind == 8 && i > 0 {
@@ -478,6 +483,27 @@ pub fn synthetic_project(seed: u64) -> Project {
             format!("Array<{} | string>", r(&mut rng))
         };
         bodies.push(body);
+    }
+    // type queries evaluated by the semantic engine on (possibly recursive) named types
+    let objs: Vec<usize> = (0..n_types).filter(|i| object_fields[*i] > 0).collect();
+    let mut queries: Vec<(String, String)> = vec![];
+    if !objs.is_empty() && rng.chance(1, 2) {
+        let nq = rng.range(1, 3);
+        for q in 0..nq {
+            let a = *rng.pick(&objs);
+            let fld = format!("f{}", rng.below(object_fields[a]));
+            let body = match rng.below(8) {
+                0 => format!("Exclude<{}[\"{}\"], null>", names[a], fld),
+                1 => format!("keyof {}", names[a]),
+                2 => format!("{}[\"{}\"]", names[a], fld),
+                3 => format!("Pick<{}, \"{}\">", names[a], fld),
+                4 => format!("Omit<{}, \"{}\">", names[a], fld),
+                5 => format!("Required<{}>", names[a]),
+                6 => format!("Exclude<{} | string, string>", names[a]),
+                _ => format!("NonNullable<{}[\"{}\"]> extends string ? \"s\" : \"o\"", names[a], fld),
+            };
+            queries.push((format!("Q{}", q), body));
+        }
     }
     // an object type must break every reference cycle: make T0 an object if it is not
     let mut files: BTreeMap<String, String> = BTreeMap::new();
@@ -521,7 +547,13 @@ pub fn synthetic_project(seed: u64) -> Project {
             src.push('\n');
         }
         if k == 0 {
+            for (qn, qb) in &queries {
+                src.push_str(&format!("export type {} = {};\n", qn, qb));
+            }
             let mut keys: Vec<String> = names.iter().map(|n| format!("{}: {}", n, n)).collect();
+            for (qn, _) in &queries {
+                keys.push(format!("{}: {}", qn, qn));
+            }
             if rng.chance(1, 2) {
                 keys.push(format!("Inline: {{ a: {}; b: {}[] }}", names[0], names[n_types - 1]));
             }
